@@ -77,12 +77,18 @@ C01_V(S, S2, c, e) ==
 Has2FA(c, ur) == (Has(c, "totp") /\ ur.totp # 0) \/ (Has(c, "sms") /\ ur.sms # 0)
 
 C02_V(S, S2, c, e) ==
-  IF ~IsReq(e) \/ ~Changed(S, S2, e.b, "uid") \/ S2.sess[e.b].uid = NONE \/ ByPrelude(S, S2, c, e) THEN {}
-  ELSE LET u == S2.sess[e.b].uid IN
+  (IF ~IsReq(e) \/ ~Changed(S, S2, e.b, "uid") \/ S2.sess[e.b].uid = NONE \/ ByPrelude(S, S2, c, e) THEN {}
+   ELSE LET u == S2.sess[e.b].uid IN
        V("C02.primaryOnlyParks", e.act \in {"LoginPost", "OtpLoginPost", "RecoverEnd"} => ~Has2FA(c, S.db[u]))
        \cup V("C02.secondStepOwnFactor",
               (e.act = "TotpValidate" => TotpCodeOk(S, u, e) \/ RcOk(S, u, e))
-              /\ (e.act = "SmsValidate" => SmsCodeOk(S, u, e, S.db[u].sms) \/ RcOk(S, u, e)))
+              /\ (e.act = "SmsValidate" => SmsCodeOk(S, u, e, S.db[u].sms) \/ RcOk(S, u, e))))
+  \* ... nor anything that stands for a session: the primary step of a 2FA account issues no remember token
+  \* (a token already presented by this request's own cookie may be rotated by the middleware)
+  \cup (IF IsReq(e) /\ e.act \in {"LoginPost", "OtpLoginPost"} /\ e.pid \in Pids /\ S.db[e.pid].ex /\ Has2FA(c, S.db[e.pid])
+           /\ ~(RmAuth(S, c, e) /\ RmOwner(S, S.cookie[e.b]) = e.pid)
+        THEN V("C02.noRememberOnPrimaryAlone", {t \in S2.rm : t.o = e.pid} \subseteq S.rm)
+        ELSE {})
 
 -----------------------------------------------------------------------------
 (* C03 - locked / unconfirmed accounts cannot complete a login or use protected routes *)
